@@ -62,7 +62,7 @@ def main(x: Option[array[int, 2]] @owned) -> None:
 '''
 
 
-def upv_obligations(chk, tag=""):
+def upv_obligations(chk, tag="", consts=False):
     """update_packed_value (tracing/unpacking.py): what a comptime caller holds after a call that
     borrowed it.  Shared with C21 (calls to Guppy functions from comptime code must leave the
     caller with the callee's updates, for copyable and non-copyable components alike)."""
@@ -126,7 +126,121 @@ def upv_obligations(chk, tag=""):
         chk.prove_paths(f"{tag}update_packed_value[{shape}]:handed-back-value-gets-the-new-wire/\\is-unused-again/\\registered-as-unused<=>not-droppable/\\the-carrier-is-consumed", paths, post_upd,
                         func=f"{UNP}:update_packed_value", replay=lambda m: {"script": REPLAY_LEAK, "input": {"program": PROG_LEAK_AFTER_BORROW}})
 
+    # ---- components that are plain Python values (a constant in a list, a field assigned a Python
+    # number): the callee may have changed them, so the slot must afterwards hold the COMPONENT handed
+    # back (its type, its wire, unused) — not the carrier, and not the stale constant
+    # (C21 only: "calls to Guppy functions behave identically"; C22's statement does not speak about it)
+    for shape in ("list[obj,const]", "list[const,obj]", "list[const,const]", "struct{q:obj,n:const}", "struct{n:const,q:obj}") if consts else ():
+        def t_c(it, shape=shape):
+            state, ty, GO = setup(it)
+            upv = it.lookup_global(e.module(UNP), "update_packed_value")
+            v = it.call(GO, [ty, "WIRE"], {})
+            if it.ctx.branch(used0):
+                it.call_method(v, "_use_wire", [None])
+            cty = SObj(TY, {"copyable": SBool(z3.BoolVal(True)), "droppable": SBool(z3.BoolVal(True)), "name": "int"})
+            outs = ["OUT0", "OUT1"]
+            builder = SObj(ClassVal("Builder", builtin=True), {})
+            e.ext_models["hugr.ops.UnpackTuple"] = lambda it2, a, k: "UnpackTuple"
+            builder.fields["add_op"] = Builtin("add_op", lambda op, *w: SObj(ClassVal("Node", builtin=True), {"outputs": Builtin("outputs", lambda: iter(outs))}))
+            e.models["guppylang_internals.std._internal.compiler.array:unpack_array"] = lambda it2, a, k: list(outs)
+            e.models["guppylang_internals.tys.builtin:is_array_type"] = lambda it2, a, k: True
+            kinds = shape[shape.index("[") + 1:-1].split(",") if shape.startswith("list") else [x.split(":")[1] for x in shape[shape.index("{") + 1:-1].split(",")]
+            tys = [ty if k_ == "obj" else cty for k_ in kinds]
+            vals = [v if k_ == "obj" else 3 for k_ in kinds]
+            if shape.startswith("list"):
+                # one element type per array; the obligation only needs the type handed to the slot
+                e.models["guppylang_internals.tys.builtin:get_element_type"] = lambda it2, a, k: a[0].fields["elem"]
+                aty = SObj(TY, {"copyable": SBool(cop), "droppable": SBool(dro), "elem": ty if "obj" in kinds else cty})
+                tys = [aty.fields["elem"]] * len(kinds)
+                new = it.call(GO, [aty, "WIRE_A"], {})
+                packed = list(vals)
+                slots = lambda: list(packed)   # noqa: E731
+            else:
+                GS = it.lookup_global(e.module(OBJ), "GuppyStructObject")
+                names = [x.split(":")[0] for x in shape[shape.index("{") + 1:-1].split(",")]
+                flds = [SObj(ClassVal("StructField", builtin=True), {"name": n_, "ty": t_}) for n_, t_ in zip(names, tys)]
+                sty = SObj(ClassVal("StructTy", builtin=True), {"fields": flds, "copyable": SBool(cop), "droppable": SBool(dro)})
+                new = it.call(GO, [sty, "WIRE_S"], {})
+                fv = dict(zip(names, vals))
+                packed = SObj(GS, {"_ty": sty, "_field_values": fv, "_frozen": False})
+                slots = lambda: [fv[n_] for n_ in names]   # noqa: E731
+            r = it.call(upv, [packed, new, builder], {})
+            return r, v, new, slots(), kinds, tys, GO
+        paths = e.explore(t_c)
+
+        def post_c(p):
+            if p.kind != "return":
+                return z3.BoolVal(False)
+            r, v, new, slots, kinds, tys, GO = p.value
+            ok = r is True and new.fields["_used"] is not None
+            for i, (k_, sl, t_) in enumerate(zip(kinds, slots, tys)):
+                if k_ == "obj":
+                    ok = ok and sl is v and v.fields["_wire"] == f"OUT{i}" and v.fields["_used"] is None
+                else:
+                    ok = ok and isinstance(sl, SObj) and sl.cls is GO and sl is not new and sl.fields["_ty"] is t_ and sl.fields["_wire"] == f"OUT{i}" and sl.fields["_used"] is None
+            return z3.BoolVal(bool(ok))
+        chk.prove_paths(f"{tag}update_packed_value[{shape}]:a-plain-python-component-is-replaced-by-the-component-handed-back(its-type,its-wire,unused)/\\objects-get-their-own-wire", paths, post_c,
+                        func=f"{UNP}:update_packed_value", replay=lambda m: {"script": REPLAY_UPV_CONST, "input": {}})
+    for k_ in ("guppylang_internals.std._internal.compiler.array:unpack_array", "guppylang_internals.tys.builtin:is_array_type", "guppylang_internals.tys.builtin:get_element_type"):
+        e.models.pop(k_, None)
     chk.use_engine(e)
+
+
+REPLAY_UPV_CONST = r'''
+import guppy_plainbool
+import tempfile, importlib.util, os, sys, shutil
+src = """from guppylang import guppy
+from guppylang.std.builtins import array, result
+@guppy.struct
+class S:
+    n: int
+    xs: array[int, 2]
+@guppy
+def bump(xs: array[int, 3], k: int) -> None:
+    xs[2] = xs[2] + k
+    xs[0] = xs[0] + 2 * k
+@guppy
+def bump_s(s: S, k: int) -> None:
+    s.xs[0] += k
+@guppy
+def reg(a: int) -> tuple[int, int, int, int, int]:
+    xs = array(a, a + 1, 3)
+    bump(xs, 10)
+    s = S(7, array(a, a))
+    bump_s(s, 10)
+    return xs[0], xs[1], xs[2], s.n, s.xs[0]
+@guppy.comptime
+def cmp(a: int) -> tuple[int, int, int, int, int]:
+    xs = [a, a + 1, 3]
+    bump(xs, 10)
+    s = S(5, [a, a])
+    s.n = 7
+    bump_s(s, 10)
+    return xs[0], xs[1], xs[2], s.n, s.xs[0]
+@guppy
+def main() -> None:
+    a, b, c, d, f = reg(1)
+    result("a", a); result("b", b); result("c", c); result("d", d); result("f", f)
+    result("sep", 0)
+    a, b, c, d, f = cmp(1)
+    result("a", a); result("b", b); result("c", c); result("d", d); result("f", f)
+"""
+d = tempfile.mkdtemp(dir=os.environ.get("TMPDIR", "/var/tmp")); fn = os.path.join(d, "replay_upvc.py"); open(fn, "w").write(src)
+spec = importlib.util.spec_from_file_location("replay_upvc", fn); m = importlib.util.module_from_spec(spec); sys.modules["replay_upvc"] = m
+try:
+    spec.loader.exec_module(m)
+    from guppylang_internals.error import GuppyError
+    try:
+        got = [list(x) for x in list(m.main.emulator(n_qubits=1).run().results)[0].entries]
+        k = got.index(["sep", 0])
+        out = {"violates": got[:k] != got[k + 1:], "regular": got[:k], "comptime": got[k + 1:]}
+    except GuppyError as ex:
+        out = {"violates": True, "comptime": "rejected: " + str(getattr(ex.error, "msg", ex.error))[:200], "regular": "accepted"}
+except Exception as ex:
+    out = {"violates": False, "error": repr(ex)[:300]}
+shutil.rmtree(d, ignore_errors=True)
+print(json.dumps(out))
+'''
 
 
 def run(chk):
